@@ -101,7 +101,9 @@ func NewRevisionSyncer(backend Backend, metricCli metrics.Metrics, l leader.Lead
 	if tlsConfig != nil {
 		r.schema = "https"
 		r.enableTLS = true
-		transport.TLSClientConfig = tlsConfig
+		// net/http completes the config it is given on first use (http2 protocols); the caller's config is also used
+		// by the etcd proxy, so the transport gets a copy of its own
+		transport.TLSClientConfig = tlsConfig.Clone()
 	}
 
 	r.httpClient = &http.Client{
